@@ -31,6 +31,7 @@ type c10Imp struct {
 	started  map[int32]int
 	finished map[int32]int
 	pings    int
+	groups   map[int]*c10Group
 	nops     int
 }
 
@@ -46,6 +47,8 @@ func (s *c10Imp) do(ctx context.Context, token, kind, code int32, msg string, sl
 	}()
 	if sleepMs > 0 {
 		time.Sleep(time.Duration(sleepMs) * time.Millisecond)
+	} else if sleepMs < 0 {
+		s.barrier(int(-sleepMs)/100, int(-sleepMs)%100)
 	}
 	switch kind {
 	case c10KTarsErr:
@@ -57,6 +60,42 @@ func (s *c10Imp) do(ctx context.Context, token, kind, code int32, msg string, sl
 		current.SetResponseStatus(ctx, map[string]string{"rs": msg})
 	}
 	return code, "e:" + msg, token ^ 0x5a5a, nil
+}
+
+// sleepMs = -(group*100 + size): the calls of one group leave in lock step, [size] at a time - the i-th arrival waits
+// until the batch it belongs to is complete (or 100 ms have passed: the last batch may be short)
+func (s *c10Imp) barrier(group, size int) {
+	if size <= 1 {
+		return
+	}
+	s.mu.Lock()
+	if s.groups == nil {
+		s.groups = map[int]*c10Group{}
+	}
+	g := s.groups[group]
+	if g == nil {
+		g = &c10Group{}
+		s.groups[group] = g
+	}
+	g.arrived++
+	batch := (g.arrived - 1) / size
+	for len(g.gates) <= batch {
+		g.gates = append(g.gates, make(chan struct{}))
+	}
+	gate := g.gates[batch]
+	if g.arrived%size == 0 {
+		close(gate)
+	}
+	s.mu.Unlock()
+	select {
+	case <-gate:
+	case <-time.After(100 * time.Millisecond):
+	}
+}
+
+type c10Group struct {
+	arrived int
+	gates   []chan struct{}
 }
 
 func (s *c10Imp) Act(ctx context.Context, token int32, kind int32, code int32, msg string, sleepMs int32, echo *string) (int32, error) {
